@@ -111,7 +111,17 @@ def run(ctx):
         if n:
             nruns += 1
         for k, msg in errs:
-            kk = k + (":report_canonical_all" if "all" in key[3] and k == "indefinite-strand" else "") + (":split-locus" if key[4] else "")
+            if k == "indefinite-strand":
+                # documented: --report_canonical all reports every model regardless of its splice sites (strand may stay undefined);
+                # 'auto' takes the level of the model construction strategy ('all' only for the strategy 'all'); without the option
+                # the level is only_stranded
+                ex = list(key[3])
+                level = ex[ex.index("--report_canonical") + 1] if "--report_canonical" in ex else "only_stranded"
+                if level == "auto":
+                    level = "all" if key[2] == "all" else "stranded"
+                if level == "all":
+                    continue
+            kk = k + (":split-locus" if key[4] else "")
             ctx.violation(kk, "scenario %s annotated=%d strategy=%s extra=%s scaled=%d: %s" % (key + (msg,)),
                           {"scenario": [list(x) for x in key[0]], "annotated": key[1], "strategy": key[2], "extra": list(key[3]), "scaled": key[4]})
     ctx.note("%d pipeline runs (%d reported novel transcripts), %d novel transcripts checked" % (len(jobs), nruns, nnovel))
